@@ -8,9 +8,9 @@ out="$wt/_out/$v"
 cd "$wt" || exit 2
 export CARGO_NET_OFFLINE=true
 git checkout -q -- . ; rm -rf tests; mkdir -p tests; cp "$out/demo.rs" tests/seeded_demo.rs
-clean_demo=$(cargo test --offline --test seeded_demo 2>&1 | grep -E "^test result" | tail -1)
+clean_demo=$(cargo test --offline ${CONFIRM_FEATURES:-} --test seeded_demo 2>&1 | grep -E "^test result" | tail -1)
 git apply "$out/patch.diff" || { echo "$id: patch does not apply"; exit 2; }
-mut_demo=$(cargo test --offline --test seeded_demo 2>&1 | grep -E "^test result" | tail -1)
+mut_demo=$(cargo test --offline ${CONFIRM_FEATURES:-} --test seeded_demo 2>&1 | grep -E "^test result" | tail -1)
 rm -rf tests
 mut_suite=$(cargo test --workspace --offline 2>&1 | grep -E "^test result" | tr '\n' ' ')
 git checkout -q -- .
